@@ -61,6 +61,8 @@ public:
   std::string dir;
   Identity caA, caB;
   Identity srvValid, srvSelfSigned, srvExpired, srvWrongName, srvNotYet, srvNotYetFar;
+  Identity srvSanOtherCnMatch; // CN=localhost, SAN dNSNames name only other hosts (RFC 6125: the CN must be ignored)
+  Identity srvNoSanCnMatch;    // CN=localhost, no SAN at all (control: legacy CN-only certificate)
   Identity srvMismatchFiles; // certFile = srv_valid certificate, keyFile = unrelated key
   EVP_PKEY *srvForgedKey = nullptr; // public = srvValid's, private = unrelated scalar
   Identity cliValid, cliUntrusted, cliExpired, cliSelfSigned, cliNotYet, cliNotYetFar;
@@ -230,6 +232,12 @@ private:
     wn.cn = "other.example";
     wn.san = "DNS:other.example,IP:192.0.2.1";
     srvWrongName = make("srv_wrongname", wn, &caA);
+    Spec so = srv;
+    so.san = "DNS:other.example,DNS:another.example";
+    srvSanOtherCnMatch = make("srv_san_other_cn_match", so, &caA);
+    Spec ns = srv;
+    ns.san = nullptr;
+    srvNoSanCnMatch = make("srv_nosan_cn_match", ns, &caA);
 
     // key mismatch
     srvMismatchFiles.cert = srvValid.cert;
